@@ -66,8 +66,8 @@ META = {
                  '1..13) x roots C/F/B x {no bass, /E, /Eb}; 12 kinds x <=2 '
                  'modifications (degrees 1,3,5,7,9) on Eb; 4 kinds x all 35 '
                  'root and 35 bass spellings; 29x29 kind pairs in h_mods',
-        'thorough': 'all sets of 1..6 pitch classes (2509 sets), every bass; '
-                    'sets of 7..12 not required to finish; symbols with 2 '
+        'thorough': 'all sets of 1..5 pitch classes (1585 sets), every bass; '
+                    'sets of 6..8 not required to finish; symbols with 2 '
                     'modifications (10 degrees) and bare modifications on all '
                     '35 root spellings; every kind + one foreign pitch class',
     },
@@ -539,9 +539,13 @@ def jobs(tier):
           root_steps=list('CDEFGAB'), root_alters=[-2, -1, 0, 1, 2],
           degrees=[1, 3, 5, 7, 9], bass_steps=['D'], bass_alters=[1],
           budget=3000)
-    for k in (4, 5, 6):
+    for k in (4, 5):
       for first in range(0, 13 - k):
         add(K=k, first=first, budget=3000)
+    # sets of 6 pitch classes take 50-90 min per job since the second naming
+    # call and the container variants were added: optional
+    for first in range(0, 13 - 6):
+      add(K=6, first=first, budget=3000, required=False)
     for first in range(0, 10):
       add(K=3, first=first, doubled=True, budget=3000)
     add(K=4, first=0, doubled=True, budget=3000)
